@@ -22,9 +22,6 @@ def gen_cases(seed, prof, n, backends, times, stats):
         except stagegen.Stuck as e:
             stats["generator_stuck"] += 1
             continue
-        if stagegen.vm_upvalue_tuple_risk(man):
-            stats["skipped(core VM defect: captured variable first in a 3-tuple built in a closure)"] += 1
-            continue
         out.append(dict(id=f"{prof}:{seed}:{i}", sp=sp, src=sp.src(), sx=sp.sx(), man_src=man.src(), man_sx=stagegen.plain_sx(man),
                         inputs=inputs, times=times, backends=backends, dup=stagegen.dup_binders(man), nmacros=len(sp.macros)))
     return out
